@@ -147,10 +147,14 @@ NameRow(s) == [s |-> s, len |-> SLen(s),
                app |-> ValidAppName(s), hook |-> ValidHookName(s)]
 
 \* q = [t, inst, comp (component name or NoComp)]
-TagRow(q) == [t |-> q.t, inst |-> q.inst, comp |-> q.comp, tlen |-> SLen(q.t),
-              belongs |-> TagBelongs(q.t, q.inst, q.comp),
-              instok |-> ValidInstanceName(q.inst),
-              compok |-> (q.comp.has => ValidSnapName(q.comp.s)),
-              inv |-> InvocationAccepts(q.t, q.inst,
-                          IF q.comp.has THEN Comp(Cat(Cat(SnapOfInstance(q.inst), Plus), q.comp.s)) ELSE NoComp)]
+TagRow(q) ==
+    LET p       == ParseTag(q.t)
+        belongs == p.ok /\ p.inst = q.inst /\ p.comp = q.comp
+        instok  == ValidInstanceName(q.inst)
+        compok  == q.comp.has => ValidSnapName(q.comp.s)
+        tlen    == SLen(q.t)
+    IN [t |-> q.t, inst |-> q.inst, comp |-> q.comp, tlen |-> tlen,
+        belongs |-> belongs, instok |-> instok, compok |-> compok,
+        \* = InvocationAccepts(q.t, q.inst, <snap of inst>+<comp>): the snap part matches by construction
+        inv |-> instok /\ compok /\ tlen <= TagMaxLen /\ belongs]
 =============================================================================
